@@ -348,7 +348,35 @@ func c12Shape(t *rapid.T, L int) Loc {
 
 func c12Gen(t *rapid.T) c12Case {
 	L := rapid.IntRange(4, 20).Draw(t, "L")
-	if rapid.IntRange(0, 2).Draw(t, "mode") > 0 {
+	mode := rapid.IntRange(0, 3).Draw(t, "mode")
+	if mode == 3 {
+		// program mode on deliberately shared classes (nested, overlapping, apart): restoration is not claimed there,
+		// everything else (no panic, idempotence, cover, nothing invented or merged across classes) is
+		n := rapid.IntRange(2, 5).Draw(t, "nfeat")
+		c := c12Case{Mode: "program-shared", L: L}
+		for i := 0; i < n; i++ {
+			key := rapid.SampledFrom([]string{"repeat_region", "repeat_region", "gene", "source"}).Draw(t, "key")
+			q := rapid.SampledFrom([][]string{{"note", "r"}, {"note", "r"}, {"note", "s"}}).Draw(t, "q")
+			a := rapid.IntRange(0, L-1).Draw(t, "a")
+			b := rapid.IntRange(a+1, L).Draw(t, "b")
+			var l Loc = lrg(a, b)
+			switch rapid.IntRange(0, 5).Draw(t, "shape") {
+			case 0:
+				l = c12Shape(t, L)
+			case 1:
+				l = lco(l)
+			}
+			if key == "source" {
+				l = lrg(0, L)
+			}
+			canon, _ := fromGts(toGts(l))
+			c.Feats = append(c.Feats, Feat{Key: key, Loc: canon, Quals: [][]string{append([]string(nil), q...)}})
+		}
+		nc := rapid.IntRange(1, minInt(4, L-1)).Draw(t, "ncuts")
+		c.Cuts = rapid.SliceOfNDistinct(rapid.IntRange(1, L-1), nc, nc, func(x int) int { return x }).Draw(t, "cuts")
+		return c
+	}
+	if mode > 0 {
 		// program mode, unique classes
 		n := rapid.IntRange(1, 6).Draw(t, "nfeat")
 		c := c12Case{Mode: "program", L: L}
@@ -403,6 +431,35 @@ func TestC12(t *testing.T) {
 	}
 	// exhaustive: one or two forward ranges (all partial combinations) of one class over L=6, straight into Repair;
 	// and every single cut of every single range/point feature over L=6 through the program
+	// exhaustive: two features of one class, one nested in (or overlapping) the other, every pair of cuts, both strands
+	es := enumPart(t, c12Prop, st, "exhaustive-shared-class")
+	for _, L := range []int{7} {
+		for _, outer := range []Loc{lrg(0, L), lrg(1, L-1)} {
+			for a := 0; a < L; a++ {
+				for b := a + 1; b <= L; b++ {
+					for k1 := 1; k1 < L; k1++ {
+						for k2 := k1; k2 < L; k2++ {
+							for _, co := range []bool{false, true} {
+								o, in := outer, lrg(a, b)
+								if co {
+									o, in = lco(o), lco(in)
+								}
+								cuts := []int{k1, k2}
+								if k1 == k2 {
+									cuts = []int{k1}
+								}
+								q := [][]string{{"note", "r"}}
+								if !es.try(c12Case{Mode: "program-shared", L: L, Cuts: cuts, Feats: []Feat{{Key: "repeat_region", Loc: o, Quals: q}, {Key: "repeat_region", Loc: in, Quals: q}}}) {
+									return
+								}
+							}
+						}
+					}
+				}
+			}
+		}
+	}
+	es.done(true)
 	e := enumPart(t, c12Prop, st, "exhaustive-small")
 	L := 6
 	var ranges []Loc
